@@ -20,3 +20,38 @@ package bytesconv
 //@     invariant forall(k, 0, i, isDigit(b[k]))
 //@     invariant forall(h, i, n+1, fold10(b, i, h, v) == fold10(b, 0, h, 0))
 //@     decreases n - i
+
+// ---- assumed contracts of standard-library functions (trusted, listed in every evidence file) ----
+
+//@ extern bytes.IndexByte(b, c) r
+//@   ensures -1 <= r && r < len(b)
+//@   ensures r >= 0 ==> b[r] == c && forall(k, 0, r, b[k] != c)
+//@   ensures r < 0 ==> forall(k, 0, len(b), b[k] != c)
+
+//@ extern bytes.LastIndexByte(s, c) r
+//@   ensures -1 <= r && r < len(s)
+//@   ensures r >= 0 ==> s[r] == c && forall(k, r+1, len(s), s[k] != c)
+//@   ensures r < 0 ==> forall(k, 0, len(s), s[k] != c)
+
+//@ extern bytes.Index(s, sep) r
+//@   ensures -1 <= r && (r >= 0 ==> r + len(sep) <= len(s))
+//@   ensures r >= 0 ==> matchAt(s, r, sep) && forall(k, 0, r, !matchAt(s, k, sep))
+//@   ensures r < 0 ==> forall(k, 0, len(s) - len(sep) + 1, !matchAt(s, k, sep))
+
+//@ extern bytes.LastIndex(s, sep) r
+//@   ensures -1 <= r && (r >= 0 ==> r + len(sep) <= len(s))
+//@   ensures r >= 0 ==> matchAt(s, r, sep) && forall(k, r+1, len(s) - len(sep) + 1, !matchAt(s, k, sep))
+//@   ensures r < 0 ==> forall(k, 0, len(s) - len(sep) + 1, !matchAt(s, k, sep))
+
+//@ extern bytes.Contains(b, subslice) r
+//@   ensures r == exists(k, 0, len(b) - len(subslice) + 1, matchAt(b, k, subslice))
+
+//@ extern bytes.Equal(a, b) r
+//@   ensures r == bytesEq(a, b)
+
+//@ extern bytes.HasPrefix(s, prefix) r
+//@   ensures r == (len(s) >= len(prefix) && matchAt(s, 0, prefix))
+
+// Logging has no effect on any modelled state.
+//@ trusted-pure hlog
+//@ trusted-pure hlog.FullLogger
